@@ -317,3 +317,23 @@ def deep_diff(sa, sb, depth=0):
     elif loops_a or loops_b:
         out.append('loops differ in number: %d vs %d' % (len(loops_a), len(loops_b)))
     return out
+
+
+def snapshot_flags(f):
+    """bool locals that record a test BEFORE the state it reads is changed and are branched on later (`const bool neg = c < 0; expr = expr / c; ... if (neg)`).
+    A path comparison cannot tell at which time such a condition was evaluated: the idiom is outside what the sibling / dual comparison decides."""
+    from .expr import LocalEnv
+    env = LocalEnv(f)
+    out = []
+    for n in f.nodes():
+        if n.get('k') != 'IfStmt':
+            continue
+        c = n['slots'].get('cond')
+        while isinstance(c, dict) and c.get('k') == 'UnaryOperator' and c.get('op') == '!':
+            c = c['c'][0]
+        if isinstance(c, dict) and c.get('k') == 'DeclRefExpr' and c.get('local') and c.get('refk') == 'Var':
+            d = env.decls.get(c.get('dloc'))
+            if d is not None and (d.get('t') or '').replace('const ', '') == 'bool' and isinstance(d.get('init'), dict) and not env.is_alias(d):
+                out.append(d.get('name'))
+    return out
+
